@@ -2,6 +2,7 @@ CONSTANTS
   LineIds = {1, 2}
   MaxLen = 2
   MaxDocs = 3
+  MaxEdits = 2
   SharedTokens = FALSE
 SPECIFICATION Spec
 INVARIANT UnmodifiedLossless
